@@ -7,6 +7,30 @@ HERE = os.path.dirname(os.path.dirname(os.path.abspath(__file__)))
 
 # property id -> (technique, level text, level note, design ref) ; only built checks are listed
 CHECKS = {
+    'C08': ('exhaustive enumeration of every response document an adversarial server can return (environment choice '
+            'exploration) against the real sync/async client, judged by a reference id-matcher',
+            'For batches of 1..3/4 calls: every response array of length 0..n+1 over {id of call i, unknown id, type-confused '
+            'id, null} x {success, error} (all permutations, omissions, duplications, additions), junk elements at every '
+            'position, non-array bodies, batch-level errors; single calls over 6 request ids x 5 id relations x 5 payloads; '
+            'strict on/off, sync/async, call/send: strict mismatches raise IdentityError, invalid bodies DeserializationError, '
+            'accepted results are attributed to the calls in call order and linked to their requests.',
+            'trusted: reference matcher inside props/c08.py; L6 null-id entries; which of several element errors is raised is free',
+            'DESIGN.md section 5, C08'),
+    'C09': ('stateless exploration of the complete tree of per-attempt transport outcomes (environment choice points) for every '
+            'retry configuration on the real sync/async client, lock-step with a reference retry/backoff model',
+            'attempts 0..3/5 x code sets x exception sets x {single, batch, notification, all-notification batch} x sync/async with '
+            'all outcome sequences; 60 backoff parameterisations x attempts 0..3/6; 7 strategy placements: number and identity of '
+            'sends, every requested pause (time.sleep / asyncio.sleep recorders, virtual clock) and the object reaching the '
+            'caller equal the reference.',
+            'trusted: reference model in props/c09.py; time.sleep and asyncio.sleep are the only clocks; L7 Fibonacci indexing',
+            'DESIGN.md section 5, C09'),
+    'C19': ('stateless exploration of the complete tree of per-attempt outcomes incl. decode / identity failures and BaseException '
+            'on the real sync/async client; invariant on the tracer event log of every execution',
+            'retry strategies of 0..2/3 attempts x 0..3 tracers x 4 request kinds x default/supplied trace context x sync/async: '
+            'every attempt has, for every tracer in configuration order, one begin and exactly one completion (end with the '
+            'attempt\'s response or error with the very exception), one context object per attempt, exception reaches the caller unchanged.',
+            'trusted: instrumented Tracer subclasses; cancellation is modelled as CancelledError raised at the transport await',
+            'DESIGN.md section 5, C19'),
     'C05': ('exhaustive enumeration of constructible messages over a closed JSON value alphabet, round-tripped through both '
             'encoders on the real classes; field-wise, wire-exactness, fixpoint and error-class oracles',
             'Every request / response / error / batch over a value alphabet closed once under list/object construction, all id '
